@@ -24,7 +24,7 @@ CLAIM = {
             "the builders pass each value to the LDK CommitmentTransaction constructor parameter of the matching role "
             "(counterparty tx: broadcaster = counterparty; holder tx: broadcaster = holder), with "
             "INITIAL_COMMITMENT_NUMBER - n, and make_channel_parameters / htlcs_info2_to_oic fill same-named fields "
-            "(offered = true only for the offered list); (R4.5) both entry points use the same builder, and the protocol handler converts wire HTLCs to the validated content by truncating division (amount_msat / 1000) identically on both sides. Does not "
+            "(offered = true only for the offered list); (R4.5) both entry points use the same builder, and the protocol handler converts wire HTLCs to the validated content by truncating division (amount_msat / 1000) identically on both sides; (R4.6) the script decoder does not refuse the extreme delays the built-in policies allow; (R4.7) estimate_feerate_per_kw rounds up by linear form; (R4.8) the signature handed back is labelled with the sighash type it was made under: wherever the protocol layer takes the raw signature out of a core TypedSignature it also takes its type (a reply that hard-codes SIGHASH_ALL for an anchor channel's SINGLE|ANYONECANPAY signature does not verify against the BOLT-3 transaction). Does not "
             "decide that decoder, recomposer and LDK agree on every byte string, nor equality of the two signatures.",
     "note": "LDK CommitmentTransaction / BuiltCommitmentTransaction semantics by name; parameter names of external "
             "functions read from crate metadata",
@@ -42,6 +42,7 @@ def run(ctx):
     r45(ctx)
     r46(ctx)
     r47(ctx)
+    r48(ctx)
 
 
 def _sign_sites(ctx, b):
@@ -503,7 +504,7 @@ def r46(ctx):
         assum = [atoms.parse_atom(f"delay == {K}")]
         cut = atoms.scenario_cut(fv, assum)
         live = fv.reach(0, cut_edges=cut)
-        ok = any(s_["block"] in live for s_ in fv.success_sites())
+        ok = any(R.site_block(s_) in live for s_ in fv.success_sites())
         ctx.ob("R4.6", ok, f"{b.name}/admits/{what.split()[1]}",
                f"the commitment script decoder refuses a to_self delay of {K}, the {what} of the built-in policies: a channel "
                f"set up with that delay is signed through the semantic entry while the raw entry rejects its canonical transaction",
@@ -532,3 +533,28 @@ def r47(ctx):
         ok = coeff == {pf: 1000} and num[1] == 999 and den[0] == "param" and den[1] == pw
     ctx.ob("R4.7", ok, f"{b.name}/formula", f"estimate_feerate_per_kw computes `{render(found[2])[:120] if found else '?'}` (expected "
            f"({pf} * 1000 + 999) / {pw})", where=f"{b.file}:{b.line}", sample="(fee * 1000 + 999) / weight")
+
+
+def r48(ctx):
+    ctx.rule("R4.8", "a TypedSignature's sighash type travels with its signature: every function outside vls-core that reads "
+                     "`.sig` of a TypedSignature also reads `.typ` of the same value (or hands the whole value on)")
+    p = ctx.prog
+    TS = "channel::TypedSignature"
+    sig_reads, typ_reads = {}, {}
+    for b, bi, si, st in R.field_reads(p, TS, "sig"):
+        sig_reads.setdefault(b.name, []).append((b, st))
+    for b, bi, si, st in R.field_reads(p, TS, "typ"):
+        typ_reads.setdefault(b.name, []).append((b, st))
+    n = 0
+    for fn, lst in sorted(sig_reads.items()):
+        b = lst[0][0]
+        if b.d.krate == "lightning_signer" or R.is_test_util(fn) or (b.mac and "derive" in b.mac):
+            continue
+        n += 1
+        ctx.touch(b)
+        ctx.ob("R4.8", fn in typ_reads, f"{fn}/sighash-type-kept",
+               f"`{fn}` takes the raw signature out of a TypedSignature (line {getattr(lst[0][1], 'line', 0)}) and drops its sighash "
+               "type: the reply labels the signature with a fixed type, so for an anchor channel's SINGLE|ANYONECANPAY HTLC "
+               "signature the returned (signature, sighash) pair does not verify against the BOLT-3 transaction",
+               where=f"{b.file}:{getattr(lst[0][1], 'line', 0)}", sample=".sig and .typ read together")
+    ctx.floor("R4.8", "protocol-layer functions that unpack a TypedSignature", n, 2)
